@@ -362,8 +362,8 @@ def observe(sources: dict[str, str], leaf: str) -> dict[str, Any]:
     from mc.util import run_coro
 
     obs = {}
+    env = make_env(templates=sources, extra=True)  # fresh per case; the DictLoader does not cache
     for api in ("sync", "async"):
-        env = make_env(templates=sources, extra=True)
         if api == "sync":
             o = outcome(lambda: env.get_template(leaf).render(**M.DATA))
         else:
@@ -393,6 +393,11 @@ def judge(prog: Any, family: str, shape: str) -> tuple[list[dict[str, Any]], str
     exp = M.expected(prog)
     sources = sources_of(prog)
     leaf = prog["leaf"]
+    if exp["kind"] == "unspecified" and exp["why"] == "resolution-re-enters-active-definition":
+        # By the statement's own rules the resolution never ends; no output is prescribed and the real
+        # engine can only run into one of its limits.  Counted, not executed (each costs a full descent
+        # to the context depth limit).
+        return [], "excluded:" + exp["why"] + ":not-executed", None, exp
     obs = observe(sources, leaf)
     stats = exp["stats"]
     L = stats["chain_len"]
@@ -451,7 +456,7 @@ def judge(prog: Any, family: str, shape: str) -> tuple[list[dict[str, Any]], str
 TIERS: dict[str, dict[str, Any]] = {
     "quick": {
         # S: (length, max blocks per template, max required flags in the chain)
-        "S": [(1, 3, UNBOUNDED), (2, 2, UNBOUNDED), (2, 3, 2), (3, 2, 2)],
+        "S": [(1, 3, UNBOUNDED), (2, 2, UNBOUNDED), (2, 3, 1), (3, 1, UNBOUNDED), (3, 2, 1)],
         # D / E: (length, max blocks per template)
         "D": [(1, 3), (2, 2), (3, 1)],
         "E": [(1, 3), (2, 2), (3, 1)],
@@ -464,7 +469,7 @@ TIERS: dict[str, dict[str, Any]] = {
         "cycle_tail": 2,
     },
 }
-TARGET_PER_SHARD = {"quick": 4000, "thorough": 25000}
+TARGET_PER_SHARD = {"quick": 2000, "thorough": 25000}
 # rough number of cases per family member, only used to size shards (measured once; not part of the verdict)
 
 
@@ -558,6 +563,10 @@ class C18(Check):
                     exp["stats"].get("max_super_depth", 0) >= 1:
                 sample = {"family": family, "shape": shape, "sources": sources_of(prog), "leaf": prog["leaf"],
                           "expected": exp.get("output")}
+            if label.endswith(":not-executed"):
+                res.count("unspecified_excluded")
+                res.count("unspecified_not_executed:" + exp["why"])
+                continue
             res.case(nontrivial=nontrivial, outcome=label, sample=sample)
             res.count(f"family_{family}")
             if exp["kind"] == "unspecified":
